@@ -1,16 +1,28 @@
 #!/bin/bash
-# Re-runs the checks against every kept seeded change (seeded/<id>/), sequentially, with the
-# current machinery: bin/reeval_all.sh [id-prefix ...]. The repository suite is not re-run
-# (SKIP_SUITE=1: it was run when the change was first confirmed and is recorded in meta.json).
+# Re-runs the check of the property each kept seeded change (seeded/<id>/) breaks, sequentially,
+# with the current machinery: bin/reeval_all.sh [id-prefix ...]. The repository suite and the
+# demonstration are not re-run (SKIP_SUITE=1 SKIP_DEMO=1: they were run when the change was first
+# confirmed and are recorded in meta.json). For the stream checks with large quick budgets a
+# part of the budget is tried first: run i of a check is the same run whatever the budget, so a
+# violation found within the first 3,000 runs is found by the full quick budget too; only if
+# nothing is found the full budget is run. SKIP_IDS="id id ..." leaves changes out.
 cd "$(dirname "$0")/.."
 for d in seeded/*/; do
   id=$(basename "$d")
   if [ $# -gt 0 ]; then ok=0; for p in "$@"; do case "$id" in $p*) ok=1;; esac; done; [ $ok = 1 ] || continue; fi
-  props=$(python3 -c "
-import json,sys
+  [ -n "$SKIP_IDS" ] && case " $SKIP_IDS " in *" $id "*) continue;; esac
+  prop=$(python3 -c "
+import json
 m=json.load(open('$d/meta.json'))
-ps=[m['breaks_property']]+[p for p in m.get('caught_by',[]) if p!=m['breaks_property']]
-print(' '.join(ps[:2]))")
-  echo "=== $(date +%H:%M:%S) $id $props"
-  SKIP_SUITE=1 SKIP_DEMO=1 python3 bin/eval_mutant.py "$d" "$id" $props 2>&1 | tail -3
+cb=m.get('caught_by',[])
+print(m['breaks_property'] if (m['breaks_property'] in cb or not cb) else cb[0])")
+  echo "=== $(date +%H:%M:%S) $id $prop"
+  frac=""
+  case "$prop" in C01|C02|C03|C04|C08|C12|C13|C15) frac=3000;; esac
+  if [ -n "$frac" ]; then
+    out=$(VERIF_RUNS=$frac SKIP_SUITE=1 SKIP_DEMO=1 python3 bin/eval_mutant.py "$d" "$id" $prop 2>&1 | tail -2)
+    echo "$out"
+    echo "$out" | grep -q "^$prop exit 1" && continue
+  fi
+  SKIP_SUITE=1 SKIP_DEMO=1 python3 bin/eval_mutant.py "$d" "$id" $prop 2>&1 | tail -2
 done
